@@ -232,6 +232,45 @@ def h_launch_vs_cancel(sw1, sw2, ebp, code, cancel, fault, B=2):
 
 
 # ------------------------------------------------------------------------------
+@obligation(params={'sw1': (0, M2), 'which': (0, 1), 'fault': (1, 3),
+                    'ebp': (0, 3), 'code': (0, 1)},
+            partition={'quick': ('sw1', 31), 'thorough': ('sw1', 61)},
+            timeout={'quick': 300, 'thorough': 900},
+            funcs=FUNCS,
+            bounds='a bulk of two tasks arrives at work(); the launch of the '
+                   'first or of the second one fails (no launcher / exec '
+                   'script / launch script), the other one runs (exit before '
+                   'poll 1..3 or never, exit code 0 / 3); watcher thread with '
+                   '<= 1 pre-emption')
+def h_bulk_launch_fault(sw1, which, fault, ebp, code):
+    """a launch failure concerns the failing task only: its sibling of the
+    same bulk is handed on and released exactly once, as usual"""
+    sw  = _switches(sw1, 0, M2)
+    which, fault, ebp = conc(which, 0, 1), conc(fault, 1, 3), conc(ebp, 0, 3)
+    code = CODES[conc(code, 0, 1)]
+    env = X.Env(ebp, code)
+    bad, good = ('t0', 't1') if which == 0 else ('t1', 't0')
+    ex  = X.mk_popen(env, X.FAULTS[fault], watch_iters=3, fault_uid=bad)
+    bulk = [X.mk_xtask('t0'), X.mk_xtask('t1')]
+    sch = C.Coop([('main', X.CORO['work'](ex, bulk)),
+                  ('watcher', X.CORO['_watch'](ex))], switch_at=sw)
+    sch.run()
+    _finish(ex, env)
+    reach()
+    trace('schedule', sch.log, 'events', ex.events)
+    sb = X.check_exactly_once(ex, bad)
+    sg = X.check_exactly_once(ex, good)
+    check(sb['final_adv'] == [rps.FAILED], 'task %s whose launch failed: '
+          'outcome %s', bad, sb['final_adv'])
+    check(len(sg['handover_stageout']) == 1, 'sibling %s of the failed task '
+          'not handed to output staging exactly once: %s', good, sg)
+    check(sg['handover_stageout'][0][1] != rps.CANCELED, 'sibling CANCELED')
+    # (the task whose launch failed stays registered in _tasks without a
+    # process: cancel_task ignores such an entry - a leak, not a second finish)
+    check(good not in ex._tasks, 'sibling left behind in _tasks')
+
+
+# ------------------------------------------------------------------------------
 # NOOP executor: intake (work) vs. collector thread (_collect)
 #
 import radical.pilot.agent.executing.noop as m_noop               # noqa: E402
